@@ -501,10 +501,9 @@ func handleZINTERSTORE(params internal.HandlerFuncParams) ([]byte, error) {
 	keyExists := params.KeysExist(params.Context, k.ReadKeys)
 	destination := k.WriteKeys[0]
 
-	// Remove the destination keys from the command before parsing it
-	cmd := slices.DeleteFunc(params.Command, func(s string) bool {
-		return s == destination
-	})
+	// Remove the destination key (and only it) from the command before parsing it.
+	// The destination may also be one of the source keys.
+	cmd := append([]string{params.Command[0]}, params.Command[2:]...)
 
 	keys, weights, aggregate, _, err := extractKeysWeightsAggregateWithScores(cmd)
 	if err != nil {
